@@ -34,7 +34,8 @@ MalCase == [spec |-> "Stark", config |-> cfg.name, mode |-> "malformed", alter |
 Emit == Done => PrintT(<<"REPLAY", ToJson(IF mal = NoMal THEN FaultCase ELSE MalCase)>>)
 \* once per configuration: the marker case (C14) and the kinds the model says the statement does not contain
 EmitPerConfig == (pc = 0 /\ fault = "none" /\ mal = NoMal) =>
-    /\ PrintT(<<"REPLAY", ToJson([spec |-> "Stark", config |-> cfg.name, mode |-> "marker"])>>)
+    /\ PrintT(<<"REPLAY", ToJson([spec |-> "Stark", config |-> cfg.name, mode |-> "marker",
+                                  model |-> [zk |-> cfg.zk, prep |-> cfg.prep, lookups |-> cfg.lookups, pubvals |-> cfg.pubvals, proto |-> cfg.proto]])>>)
     /\ \A q \in ParamsOf(cfg), o \in {"inc", "dec"} :
           PrintT(<<"REPLAY", ToJson([spec |-> "Stark", config |-> cfg.name, mode |-> "malformed", alter |-> [target |-> q, op |-> o],
                                     model |-> [refused_at |-> "param", validated |-> TRUE]])>>)
